@@ -26,7 +26,7 @@ theorem pubLoop_ok (self : Bytes) : ∀ (l : List PubTree) (seen : List Bytes), 
   | e :: rest, seen, h => by
     simp only [pubLoop, Bool.true_and, ↓reduceIte, ite_err_ok, Bool.or_eq_true, beq_iff_eq,
       List.contains_iff_mem, not_or] at h
-    obtain ⟨hnull, hid, hseen, h⟩ := h
+    obtain ⟨hnull, _hbad, hid, hseen, h⟩ := h
     by_cases hs : e.id = self
     · simp only [hs, ↓reduceIte, ite_err_ok, Bool.not_eq_true', Bool.and_eq_false_iff, not_or, Bool.not_eq_false, beq_iff_eq] at h
       obtain ⟨hst, hrest⟩ := h
@@ -77,6 +77,7 @@ theorem pubLoop_true_ne_crash (self : Bytes) : ∀ (l : List PubTree) (seen : Li
   | e :: rest, seen => by
     intro h
     simp only [pubLoop, Bool.true_and] at h
+    split at h; · cases h
     split at h; · cases h
     split at h; · cases h
     split at h; · cases h
